@@ -2,7 +2,7 @@
    an operation and the result fits into the capacity, the model returns (no precondition failure, no
    out-of-bounds access), keeps the invariant, and its contents are exactly the std result. *)
 From Tetl Require Import Lib.Base Lib.Arr C08.Model C04.Model C04.Spec C04.Inv C04.InvOps
-  C04.RefineBase C04.RefineOps1 C04.RefineOps2.
+  C04.CstrFacts C04.RefineBase C04.RefineOps1 C04.RefineOps2 C04.RefineOps3.
 From Coq Require Import ZifyBool.
 Local Open Scope Z_scope.
 Ltac Zify.zify_post_hook ::= Z.to_euclidean_division_equations.
@@ -66,12 +66,12 @@ Lemma op_wf_nonneg o : op_wf o -> sop_nonneg (sop_of o).
 Proof. destruct o; cbn [op_wf sop_of sop_nonneg]; unfold szt; intros; lia. Qed.
 
 (** * one step *)
-Lemma step_refines s o l' : inv s -> op_wf o ->
+Lemma step_refines s o l' : inv s -> op_wf o -> arg_ok (cap s) o ->
   spec_step (contents s) (sop_of o) = Some l' -> slen l' <= cap s -> refines s (step s o) l'.
 Proof.
-  intros I W H Hfit. pose proof I as (Hc & Hl & Hs & _).
+  intros I W A H Hfit. pose proof I as (Hc & Hl & Hs & _).
   pose proof (contents_len s I) as L. change zlen with slen in L.
-  destruct o; cbn [step sop_of spec_step op_wf] in *; unfold szt in W.
+  destruct o; cbn [step sop_of spec_step op_wf arg_ok] in *; unfold szt in W.
   - (* clear *) inversion H; subst. apply clear_ref. exact I.
   - (* push_back *) inversion H; subst. rewrite slen_app, L in Hfit. change (slen [ch]) with 1 in Hfit.
     apply push_back_ref; [exact I|lia].
@@ -122,23 +122,78 @@ Proof.
     destruct (ctor_ptr_ref (cap s) (ckind s) l' (zlen l') Hc ltac:(pose proof (zlen_nonneg l'); lia) Hfit)
       as (o & E & Io & Co & Ko & Cn).
     rewrite E. cbn [rbind].
-    destruct (swap_ref s o I Io Co) as (a' & b' & Es & Ka & Ca).
+    destruct (swap_ref s o I Io Co) as (a' & b' & Es & Ka & Ca & _ & _).
     rewrite Es. cbn [rbind fst]. exists a'. split; [reflexivity|]. split; [exact Ka|].
     rewrite Ca, Cn. unfold take, zlen. rewrite Nat2Z.id. apply firstn_all.
+  - (* append(s) *)
+    destruct (s_cstr a) as [x|] eqn:E; [|discriminate]. cbn [omap] in H. inversion H; subst.
+    rewrite slen_app, L in Hfit. apply append_cstr_ref; [exact I|exact W|exact E|exact Hfit].
+  - (* append(str) *) inversion H; subst. rewrite slen_app, L in Hfit. apply append_str_ref; [exact I|exact Hfit].
+  - (* append(str, pos, count) *)
+    destruct (s_substr src pos count) as [x|] eqn:E; [|discriminate]. cbn [omap] in H. inversion H; subst.
+    rewrite slen_app, L in Hfit. apply (append_str_sub_ref s src pos count x); try assumption; lia.
+  - (* append(view, pos, count) *)
+    destruct (s_substr src pos count) as [x|] eqn:E; [|discriminate]. cbn [omap] in H. inversion H; subst.
+    rewrite slen_app, L in Hfit. apply (append_view_sub_ref s src pos count x); try assumption; lia.
+  - (* assign(s) *) apply assign_cstr_ref; assumption.
+  - (* assign(str, pos, count) *) apply (assign_str_sub_ref s src pos count l'); try assumption; lia.
+  - (* assign(view, pos, count) *) apply (assign_view_sub_ref s src pos count l'); try assumption; lia.
+  - (* insert(index, s) *)
+    destruct (s_cstr a) as [x|] eqn:E; [|discriminate]. cbn [obind2] in H.
+    apply s_insert_inv in H as (Hp & ->). rewrite slen_insert, L in Hfit by lia.
+    destruct W as (W1 & W2). apply insert_cstr_ref; [exact I|lia|exact W2|exact E|exact Hfit].
+  - (* insert(index, str/view, indexStr, count) *)
+    destruct (s_substr src indexStr count) as [x|] eqn:E; [|discriminate]. cbn [obind2] in H.
+    apply s_insert_inv in H as (Hp & ->). rewrite slen_insert, L in Hfit by lia.
+    apply (insert_str_sub_ref s index src indexStr count x); try assumption; lia.
+  - (* erase(position) *)
+    destruct (pos <? slen (contents s)) eqn:E; [|discriminate].
+    unfold s_erase_range in H. destruct (pos + 1 <=? slen (contents s)); [|discriminate]. inversion H; subst.
+    apply erase_pos_ref; [exact I|lia].
+  - (* etl::erase(s, value) *)
+    inversion H; subst. destruct (free_erase_if_ref (fun x => x =? value) s I) as (s' & n & E & K & C & _).
+    rewrite E. cbn [rbind fst]. exists s'. split; [reflexivity|]. split; [exact K|exact C].
+  - (* etl::erase_if(s, pred) *)
+    inversion H; subst. destruct (free_erase_if_ref (pred_of k) s I) as (s' & n & E & K & C & _).
+    rewrite E. cbn [rbind fst]. exists s'. split; [reflexivity|]. split; [exact K|exact C].
 Qed.
 
+(* the count returned by etl::erase / etl::erase_if is the std one *)
+Lemma returned_count_refines s o : inv s ->
+  match o with OFreeErase _ | OFreeEraseIf _ => True | _ => False end ->
+  returned_count s o = Ok (spec_returned_count (contents s) (sop_of o)).
+Proof.
+  intros I Ho. destruct o; try contradiction; cbn [returned_count spec_returned_count sop_of].
+  - destruct (free_erase_if_ref (fun x => x =? value) s I) as (s' & n & E & _ & _ & Hn). rewrite E. cbn [rbind snd]. rewrite Hn. reflexivity.
+  - destruct (free_erase_if_ref (pred_of k) s I) as (s' & n & E & _ & _ & Hn). rewrite E. cbn [rbind snd]. rewrite Hn. reflexivity.
+Qed.
+
+(* swap exchanges the contents of BOTH objects and both keep the invariant *)
+Lemma swap_both a b : inv a -> inv b -> cap b = cap a ->
+  exists a' b', swap_m a b = Ok (a', b') /\ inv a' /\ inv b' /\ contents a' = contents b /\ contents b' = contents a /\
+                cap a' = cap a /\ cap b' = cap b.
+Proof.
+  intros Ia Ib Hc. destruct (swap_ref a b Ia Ib Hc) as (a' & b' & E & Ka & Ca & Kb & Cb).
+  exists a', b'. split; [exact E|]. unfold keeps in *. tauto.
+Qed.
+
+(* the iterator returned by erase(first, last) / erase(position) is the std one: begin() + start *)
+Lemma returned_pos_refines o : returned_pos o = spec_returned_pos (sop_of o).
+Proof. destruct o; reflexivity. Qed.
+
 (** * every history *)
-Theorem run_refines : forall ops s l', inv s -> Forall op_wf ops ->
+Theorem run_refines : forall ops s l', inv s -> Forall op_wf ops -> Forall (arg_ok (cap s)) ops ->
   spec_run_fits (cap s) (contents s) (map sop_of ops) = Some l' -> refines s (run s ops) l'.
 Proof.
-  induction ops as [|o ops IH]; intros s l' I W H; cbn [run map spec_run_fits] in *.
+  induction ops as [|o ops IH]; intros s l' I W A H; cbn [run map spec_run_fits] in *.
   - inversion H; subst. exists s. split; [reflexivity|]. split; [apply keeps_refl; exact I|reflexivity].
-  - inversion W as [|? ? Wo Wr]; subst.
+  - inversion W as [|? ? Wo Wr]; subst. inversion A as [|? ? Ao Ar]; subst.
     destruct (spec_step_fits (cap s) (contents s) (sop_of o)) as [l1|] eqn:E; [|discriminate]. cbn [obind2] in H.
     apply spec_step_fits_iff in E as (E1 & F1); [|apply op_wf_nonneg; exact Wo].
-    destruct (step_refines s o l1 I Wo E1 F1) as (s1 & Es & K1 & C1).
+    destruct (step_refines s o l1 I Wo Ao E1 F1) as (s1 & Es & K1 & C1).
     rewrite Es. cbn [rbind].
     destruct (IH s1 l' (keeps_inv _ _ K1) Wr) as (s' & E' & K' & C').
+    { rewrite (keeps_cap _ _ K1). exact Ar. }
     { rewrite (keeps_cap _ _ K1), C1. exact H. }
     exists s'. split; [exact E'|]. split; [eapply keeps_trans; eassumption|exact C'].
 Qed.
@@ -150,13 +205,14 @@ Proof.
 Qed.
 
 (* from the empty string, for every capacity and character type *)
-Theorem history_refines c ck ops l' : cap_ok c -> Forall op_wf ops ->
+Theorem history_refines c ck ops l' : cap_ok c -> Forall op_wf ops -> Forall (arg_ok c) ops ->
   spec_run_fits c [] (map sop_of ops) = Some l' ->
   exists s', run (default_str c ck) ops = Ok s' /\ contents s' = l' /\ get_size s' = slen l' /\
              terminator s' = 0 /\ cap s' = c /\ ckind s' = ck /\ zlen (buf s') = c + 1.
 Proof.
-  intros Hc W H. destruct (inv_default c ck Hc) as (I0 & _). destruct (default_cap c ck) as (C0 & K0).
+  intros Hc W A H. destruct (inv_default c ck Hc) as (I0 & _). destruct (default_cap c ck) as (C0 & K0).
   destruct (run_refines ops (default_str c ck) l' I0 W) as (s' & E & K & C).
+  { rewrite C0. exact A. }
   { rewrite C0, (contents_default c ck Hc). exact H. }
   exists s'. split; [exact E|]. split; [exact C|].
   pose proof (keeps_inv _ _ K) as I'. pose proof I' as (_ & Hl & _ & Ht).
